@@ -17,7 +17,8 @@
      binary.*Endian.UintNN / PutUintNN and a division by zero are [Panic],
      as in Go;
    - [for] loops run on explicit fuel ([OutOfFuel] when exhausted), [range]
-     loops are structural on the ranged list;
+     loops are structural on the ranged list; [break] / [continue] are outcomes
+     caught by the innermost loop ([break] also by a switch, [SBlock]);
    - a local pointer to a struct is expanded into one slot per field plus a
      nil flag; reading or writing a field of a nil pointer is [Panic] ([EDeref]);
    - anything the translator does not understand becomes [SUnsupported] /
@@ -100,6 +101,9 @@ Inductive stmt : Type :=
 | SFor (c : expr) (post body : stmt)
 | SRange (xi xv : option nat) (e : expr) (body : stmt)
 | SReturn (es : exprs)
+| SBreak
+| SContinue
+| SBlock (s : stmt)                      (* a switch: [break] inside leaves the block *)
 | SUnsupported (what : string).
 
 Definition state := list val.
@@ -322,6 +326,8 @@ Section Eval.
   Inductive outcome : Type :=
   | ONormal (st : state)
   | OReturn (st : state) (vs : option (list val))   (* None: bare return *)
+  | OBreak (st : state)
+  | OContinue (st : state)
   | OFail (r : res unit).
 
   Definition ofail {A} (r : res A) : outcome :=
@@ -379,11 +385,12 @@ Section Eval.
         match condf st with
         | Ok (VB true) =>
             match bodyf st with
-            | ONormal st1 =>
+            | ONormal st1 | OContinue st1 =>
                 match postf st1 with
                 | ONormal st2 => for_go n' condf bodyf postf st2
                 | o => o
                 end
+            | OBreak st1 => ONormal st1
             | o => o
             end
         | Ok (VB false) => ONormal st
@@ -403,7 +410,8 @@ Section Eval.
         match rbind (set_opt st xi (VN i)) (fun st1 => set_opt st1 xv v) with
         | Ok st2 =>
             match bodyf st2 with
-            | ONormal st3 => range_go bodyf xi xv (i + 1) l' st3
+            | ONormal st3 | OContinue st3 => range_go bodyf xi xv (i + 1) l' st3
+            | OBreak st3 => ONormal st3
             | o => o
             end
         | r => ofail r
@@ -467,6 +475,13 @@ Section Eval.
                | r => ofail r
                end
         end
+    | SBreak => OBreak st
+    | SContinue => OContinue st
+    | SBlock b =>
+        match exec fuel st b with
+        | OBreak st1 => ONormal st1
+        | o => o
+        end
     | SUnsupported _ => OFail Stuck
     end.
 
@@ -488,6 +503,7 @@ Section Eval.
       | OFail Panic => Panic
       | OFail OutOfFuel => OutOfFuel
       | OFail _ => Stuck
+      | OBreak _ | OContinue _ => Stuck
       end.
 End Eval.
 
